@@ -17,7 +17,7 @@ FLOORS = {"quick": {"raising_calls_checked": 5000, "readonly_calls_checked": 500
           "thorough": {"raising_calls_checked": 80000}}
 WEIGHTS = {"get_duration": 0.6, "str": 0.3, "sample": 0.4, "current_phase_ref": 0.3, "estimate_added_delay": 0.6,
            "to_abstract_repr": 0.15, "build_copy": 0.15, "queries": 0.3, "is_in_eom_mode": 0.3, "measure": 0.1,
-           "target": 3.0, "enable_eom_mode": 1.8, "align": 2.0}
+           "target": 3.0, "enable_eom_mode": 1.8, "align": 2.0, "draw": 0.04}
 
 
 def run_case(ctx, idx, rng, tier):
